@@ -287,6 +287,16 @@ func (node *Node) ProcessBlock(ctx context.Context, block wire.Block) error {
 			inMemPool = node.memPool.RemoveTransaction(*txid)
 		}
 
+		if inUnconfirmed || inMemPool {
+			// The tx was seen before this block, so the "not seen yet" branch below doesn't look at
+			// it. Other unconfirmed txs spending the same outputs are still double spends of a now
+			// confirmed tx and have to be cancelled the same way.
+			if err := node.cancelConflicting(ctx, tx, unconfirmed); err != nil {
+				node.txs.ReleaseUnconfirmed(ctx)
+				return err
+			}
+		}
+
 		if inUnconfirmed {
 			// Already seen and marked relevant
 			merkleTree.AddMerkleProof(*txid)
@@ -445,6 +455,41 @@ func (node *Node) ProcessBlock(ctx context.Context, block wire.Block) error {
 
 	if err := node.txs.FinalizeUnconfirmed(ctx, unconfirmed); err != nil {
 		return err
+	}
+
+	return nil
+}
+
+// cancelConflicting removes txs from the mempool that spend the same outputs as the confirmed tx
+// and sends a cancel update for those that were previously sent to the handlers.
+func (node *Node) cancelConflicting(ctx context.Context, tx *wire.MsgTx,
+	unconfirmed []bitcoin.Hash32) error {
+
+	txid := *tx.TxHash()
+	for _, confHash := range node.memPool.Conflicting(tx) {
+		if confHash.Equal(&txid) || !containsHash(confHash, unconfirmed) {
+			continue // Only send for other txs that previously matched filters.
+		}
+
+		txState, err := handlersstorage.FetchTxState(ctx, node.store, confHash)
+		if err != nil {
+			return errors.Wrap(err, "fetch tx state")
+		}
+
+		txState.State.UnSafe = true
+		txState.State.Cancelled = true
+
+		if err := handlersstorage.SaveTxState(ctx, node.store, txState); err != nil {
+			return errors.Wrap(err, "save tx state")
+		}
+
+		update := &client.TxUpdate{
+			TxID:  confHash,
+			State: txState.State,
+		}
+		for _, handler := range node.handlers {
+			handler.HandleTxUpdate(ctx, update)
+		}
 	}
 
 	return nil
